@@ -93,7 +93,7 @@ def _one_run(args: Tuple[int, str, int, str]) -> Dict[str, Any]:
             res.probe("run_retried_after_timeout")
         res.harness = [f"{batch_name}/{run}: {h}" for h in res.harness]
         n_ops = sum(len(s["ops"]) for s in plan["sessions"])
-        stats = {"sched_steps": 0, "choices": 0}
+        stats = {"sched_steps": 0, "choices": 0, "clock_s": 0.0}
         faults_cfg: Dict[str, int] = {}
         for s in plan["sessions"]:
             for f in s.get("pre", []):
@@ -110,6 +110,7 @@ def _one_run(args: Tuple[int, str, int, str]) -> Dict[str, Any]:
                     st = ev.get("stats", {})
                     stats["sched_steps"] += st.get("sched_steps", 0)
                     stats["choices"] += st.get("choices", 0)
+                    stats["clock_s"] += float(st.get("clock_s", 0.0))
                 elif ev.get("ev") == "schedule":
                     schedules.append(ev["digest"])
         return {
@@ -245,6 +246,7 @@ def _report(spec: Dict[str, Any], tier: str, seed: int, jobs: int, results: List
     digests_nontrivial = set()
     evals = 0
     sched_steps = choices = sessions = ops = 0
+    clock_s = 0.0
     for r in results:
         for k, v in r["probes"].items():
             probes[k] = probes.get(k, 0) + v
@@ -255,6 +257,7 @@ def _report(spec: Dict[str, Any], tier: str, seed: int, jobs: int, results: List
         evals += r["evals"]
         sched_steps += r["stats"]["sched_steps"]
         choices += r["stats"]["choices"]
+        clock_s += r["stats"].get("clock_s", 0.0)
         sessions += r["sessions"]
         ops += r["ops"]
         if r["nontrivial"] and r["digest"]:
@@ -322,8 +325,10 @@ def _report(spec: Dict[str, Any], tier: str, seed: int, jobs: int, results: List
             "simulated_runs": n_done, "runs_planned": n_tasks, "sessions": sessions, "operations": ops,
             "oracle_comparisons": evals,
             "runs_per_hour": round(per_hour, 1), "seeds_per_hour": round(per_hour, 1),
-            "simulated_time_s": 0,
-            "simulated_time_note": "HTA has no timers, deadlines or sleeps; progress is counted in operations and scheduler steps",
+            "simulated_time_s": round(clock_s, 1),
+            "simulated_time_note": ("sum over sessions of the advance of the simulated wall clock (time.time seam: seeded jumps of 0 .. 61 s "
+                                    "at operation boundaries). HTA has no timers, deadlines or sleeps: the clock only reaches gzip headers; "
+                                    "progress is counted in operations and scheduler steps"),
             "scheduler_steps": sched_steps, "scheduler_choices": choices,
             "faults_configured": faults_cfg, "faults_fired": fired,
             "distinct_pool_schedules": len(schedules),
@@ -335,6 +340,8 @@ def _report(spec: Dict[str, Any], tier: str, seed: int, jobs: int, results: List
                                 "pickle", "os.fork (pool workers, session children)", "files on tmpfs"],
             "components_stubbed": ["multiprocessing.Pool/Manager objects (SimPool: real forked workers, lock-step)",
                                    "cpu_count", "psutil.virtual_memory", "tracemalloc", "os.listdir order",
+                                   "time.time / time.time_ns (simulated wall clock)",
+                                   "garbage-collector schedule (automatic collection off, full collection at operation boundaries)",
                                    "plotting (visualize=False)"],
             "violations_of_other_properties_seen": other_props,
             "known_findings_reported": len(known_lines),
